@@ -42,7 +42,7 @@ type Step struct {
 
 type History struct {
 	Steps []Step `json:"steps"`
-	End   string `json:"end"` // close | leave
+	End   string `json:"end"` // close | leave | replaced
 }
 
 // pubSkew is the offset of the publisher's NTP clock from the server's.
@@ -408,6 +408,13 @@ func (e *env) run(st *stream, h *History) (o *obs) {
 	switch h.End {
 	case "leave":
 		if err := dw.PushConn(e.g, o.up.id, nil, nil, ""); err != nil {
+			o.pushErr = err
+		}
+	case "replaced":
+		// the publisher replaced the stream and closed the replacement before
+		// it was ever announced: the only notification is the deletion of the
+		// replacement, which names the recorded stream in its replace field
+		if err := dw.PushConn(e.g, "replacement-of-"+o.up.id, nil, nil, o.up.id); err != nil {
 			o.pushErr = err
 		}
 	default:
